@@ -66,6 +66,23 @@ fn run(case: &Case, cx: &mut Cx) -> CaseResult {
         b.result.as_ref().map(|o| o.stats.errors).ok()
     );
 
+    // The (empty) destination directory itself varies: absent, or there with the set-group-id
+    // bit and another group, under which everything created in it inherits that group.
+    match case.tree.0.len() % 4 {
+        1 => {
+            std::fs::create_dir(&dest).unwrap();
+            let c = std::ffi::CString::new(std::os::unix::ffi::OsStrExt::as_bytes(dest.as_os_str())).unwrap();
+            unsafe {
+                libc::chown(c.as_ptr(), 0, 7);
+                libc::chmod(c.as_ptr(), 0o2775);
+            }
+            cx.label("destination-setgid-other-group");
+        }
+        2 => {
+            std::fs::create_dir(&dest).unwrap();
+        }
+        _ => {}
+    }
     let r = ops::restore(&arch, &None, &dest, &Sel::LatestClosed, None, &[], false);
     if let Some(p) = &r.panic {
         return Err(Failure::new(
